@@ -11,6 +11,21 @@ sys.path.insert(0, os.path.dirname(os.path.abspath(__file__)))
 import vlib  # noqa: E402
 
 
+def generic_replay(mod, prop, path):
+    """re-executes the check that produced the replay file and reports whether a violation with the same
+    signature (same operation / input class) is found again; exit 1 when it is, 0 when it is not"""
+    import json
+    rec = json.load(open(path))
+    want = rec.get("sig")
+    print("replaying %s: signature %s" % (path, json.dumps(want, sort_keys=True)))
+    print("recorded detail:", json.dumps(rec.get("detail"), default=str)[:1500])
+    mod.run("quick")
+    got = json.load(open(os.path.join(vlib.BUILD, "last_signatures_%s.json" % prop)))
+    again = want in got
+    print("REPRODUCED" if again else "NOT REPRODUCED", "(the check re-generated and re-executed its cases against %s)" % vlib.REPO)
+    return 1 if again else 0
+
+
 def main():
     ap = argparse.ArgumentParser()
     ap.add_argument("prop")
@@ -20,7 +35,10 @@ def main():
     mod = importlib.import_module("checks." + a.prop.lower())
     try:
         if a.replay:
-            rc = mod.replay(a.replay)
+            if hasattr(mod, "replay"):
+                rc = mod.replay(a.replay)
+            else:
+                rc = generic_replay(mod, a.prop, a.replay)
         else:
             rc = mod.run(a.tier)
     except vlib.Broken as e:
